@@ -51,7 +51,7 @@ def parseOne : Nat → Bytes → Option (RespVal × Bytes)
       if !cleanLine line then none else
       if t == 43 then some (.simple line, rest)
       else if t == 45 then some (.error line, rest)
-      else if t == 58 then (parseInt64 line).map fun i => (.int i, rest)
+      else if t == 58 then (parseIntDec line).map fun i => (.int i, rest)
       else if t == 36 then
         if line == b "-1" then some (.nullBulk, rest) else
         if !allDigits line then none else
